@@ -194,6 +194,14 @@ def run(out: Outcome) -> None:
             xs += [abs(rng.gauss(level, 0.2)) for _ in range(rng.randint(p["min_num_instances"] + 5, 3 * p["min_num_instances"]))]
             xs += [abs(rng.gauss(level + rng.choice([3.0, 8.0]), 0.1)) for _ in range(rng.randint(2, 6))]     # a small step inside the short post-cut window
         check(out, p, xs, runners)
+    # m = 1: rows are emptied by every merge, deletions must skip the emptied rows
+    for i in range(20 if thorough else 8):
+        p = {"clock": 1, "delta": rng.choice([0.3, 0.8]), "m": 1, "min_window_size": rng.choice([1, 2]), "min_num_instances": rng.choice([1, 3, 5])}
+        xs, level = [], 0.0
+        for seg in range(rng.randint(3, 7)):
+            level = rng.choice([0.0, 4.0, 9.0, 20.0])
+            xs += [abs(rng.gauss(level, 0.3)) for _ in range(rng.randint(10, 60))]
+        check(out, p, xs, runners)
     if "KF-C05-1" in out.findings:   # witness of the recorded finding
         import json
         from common import VERIF
